@@ -107,7 +107,7 @@ def gen_scenario(rng: random.Random, seed: int, cls: str) -> dict:
         members.append(m)
     sc = dict(cls=cls, seed=seed, topics=topics, loglen=rng.choice([2, 4, 8]), nnodes=rng.choice([1, 2, 3]),
               join_max=rng.choice([0, 1, 2, 5, 5]), duration=dur, members=members, faults=dict(budget=0))
-    if cls in ("churn", "faults", "subs", "live", "syncfault", "latelookup"):
+    if cls in ("churn", "faults", "subs", "live", "syncfault", "latelookup", "grow"):
         for m in members:
             r = rng.random()
             if r < 0.30:
@@ -135,6 +135,16 @@ def gen_scenario(rng: random.Random, seed: int, cls: str) -> dict:
         # the coordinator moves / is unavailable exactly at a SyncGroup of a member that already held an assignment
         sc["faults"] = dict(budget=0, script=[["SyncGroup", rng.randrange(2, 6), "error", rng.choice([15, 16])]],
                             slow=rng.choice([0, 0.005]))
+    if cls == "grow":
+        # the subscribed topic gains a partition at a random instant (also while a JoinGroup / SyncGroup is in flight):
+        # the group must end up owning it
+        sc["faults"] = dict(budget=0, slow=rng.choice([0.01, 0.03, 0.06]))
+        sc["metadata_max_age_ms"] = rng.choice([300, 700])
+        if rng.random() < 0.5:
+            sc["grow"] = [[round(0.05 + rng.random() * 1.2, 3), "t"]]
+        else:
+            sc["grow_at_sync"] = [rng.choice([1, 1, 2]), "t", 0.5]
+            sc["metadata_max_age_ms"] = 300
     if cls == "latelookup":
         # committed-offset lookups that do not start together (one partition gets its leader while the others'
         # OffsetFetch is still in flight): the late one must still start from the committed offset
